@@ -226,6 +226,8 @@ def check(prop, tier, replay=None):
                             "events": len(r["events"]), "verdict": v.summary()})
         if not replay and prop in MC_PLAN:
             run_universes(run, scr, prop, tier)
+        if not replay and prop in ("C01", "C06"):
+            run_ledger(run, scr, prop, tier)
         if not replay:
             run_known(run, scr, prop)
     return run.finish()
@@ -299,3 +301,60 @@ def run_universes(run, scr, prop, tier):
             run.notes.setdefault("universes", []).append({"module": module, "projects": len(jobs), "states": res.distinct, "violating": bad,
                                                           "mode": "every project traced and judged by TraceSched"})
         run.cov["exhaustive"] = True
+
+
+# ----------------------------------------------------------------------------------------------
+# Engine E3: one slot of one resource.  Apalache proves the no-double-booking invariant inductive for every
+# capacity; TLC enumerates every operation sequence of a small instance; each is replayed into the real ledger.
+def run_ledger(run, scr, prop, tier):
+    import subprocess
+    import tempfile
+    import shutil
+    from harness import tlaval
+    from harness.build import env_for, PY
+    from harness.tlc import run_tlc, SPEC_DIR
+    res = run_tlc("MC_SlotLedgerR", "MC_SlotLedgerR.cfg", timeout=900)
+    if res.error or res.invariant_violated:
+        raise MachineryError("SlotLedger violates its own invariant:\n" + res.out[-1500:])
+    run.add_tlc(res)
+    hists = []
+    for raw in res.tuples("LEDGERHIST"):
+        v = tlaval.parse(raw)
+        hists.append(v[1])
+    if not hists:
+        raise MachineryError("SlotLedger printed no histories")
+    wd = tempfile.mkdtemp(prefix="spled_")
+    try:
+        json.dump({"cap": 6, "hists": hists}, open(os.path.join(wd, "h.json"), "w"))
+        p = subprocess.run([PY, "-m", "harness.ledgerrun", os.path.join(wd, "h.json"), os.path.join(wd, "o.json")],
+                           env=env_for(scr, hooks=False), cwd=wd, stdout=subprocess.PIPE, stderr=subprocess.PIPE, text=True, timeout=1800)
+        if p.returncode != 0:
+            raise MachineryError("ledger runner failed: " + p.stderr[-1500:])
+        out = json.load(open(os.path.join(wd, "o.json")))
+        apa = None
+        if prop == "C01":
+            apa = []
+            for args in (["--init=Init", "--length=0"], ["--init=IndInv", "--length=1"]):
+                a = subprocess.run(["timeout", "300", "apalache-mc", "check", "--cinit=CInit", "--inv=IndInv", "--out-dir=" + os.path.join(wd, "apa")] + args +
+                                   ["MC_SlotLedgerU.tla"], cwd=SPEC_DIR, stdout=subprocess.PIPE, stderr=subprocess.STDOUT, text=True)
+                apa.append("NoError" if "The outcome is: NoError" in a.stdout else ("timeout" if a.returncode == 124 else "FAILED"))
+            shutil.rmtree(os.path.join(SPEC_DIR, "_apalache-out"), ignore_errors=True)
+    finally:
+        shutil.rmtree(wd, ignore_errors=True)
+    run.cov["evaluations"] += out["histories"]
+    run.cov["traces_validated_against_impl"] += out["histories"]
+    for h in hists:
+        if len(h) >= 3:
+            run.nontrivial(phash(h))
+    note = {"operation_sequences_replayed": out["histories"], "calls": out["calls"], "disagreeing": out["nbad"]}
+    if apa is not None:
+        note["apalache_inductive_invariant_any_capacity"] = {"Init=>IndInv": apa[0], "IndInv/\\Next=>IndInv'": apa[1]}
+        if "FAILED" in apa:
+            raise MachineryError("Apalache no longer discharges the inductive invariant of SlotLedger: %s" % apa)
+    run.notes["slot_ledger"] = note
+    for b in out["bad"][:10]:
+        mine = (prop == "C01" and not b["ledger_ok"]) or (prop == "C06" and not b["end_ok"])
+        if mine:
+            run.violation("ledger-h%d" % b["hist"], b, {"why": "replaying a SlotLedger operation sequence into the real ledger: " +
+                                                          ("used / portion differ from the spec state" if prop == "C01" else "precise end differs from slot start + base + kept"),
+                                                          "history": b["history"], "got": b["got"], "want": b["want"]})
